@@ -27,8 +27,8 @@ func cmdObls(args []string) {
 	}
 	res := runProperty(pos[0], "quick", *timeout)
 	type row struct {
-		Name       string `json:"name"`
-		Discharged bool   `json:"discharged"`
+		Name       string  `json:"name"`
+		Discharged bool    `json:"discharged"`
 		Verdict    string  `json:"verdict"`
 		Solver     string  `json:"solver"`
 		TimeS      float64 `json:"time_s"`
